@@ -571,7 +571,10 @@ def oracle_case(case, obs):
             if run["text"] != main["text"]:
                 out.append(("masked-site-changes-output-perturbed", "output differs when only masked sites' content changes"))
         else:
-            keep_ids = [j for j, m in enumerate(exp.get("masked", [])) if not m]
+            # the mask straight from the arguments (exp has no "masked" entry when the
+            # documented outcome is an __init__-stage error, e.g. an all-non-sample individual
+            # that the code accepts: the masked-site comparison still applies to what was written)
+            keep_ids = [j for j, m in enumerate(mask_bools(args.get("site_mask"), len(facts["sites"]))) if not m]
             try:
                 a = parse_vcf(main["text"])
                 b = remap_ids(run["text"], keep_ids)
